@@ -20,7 +20,7 @@ PLAN = {
                 soft=[]),
     "C02": dict(families=["mix", "fault", "delay", "scen"],
                 hard=["MISMATCH out-extra", "SPEC C02-empty-op", "SPEC C02-name-not-watched"], soft=[]),
-    "C03": dict(families=["mix", "names", "rename", "scen"], hard=["MISMATCH out-order"], soft=[]),
+    "C03": dict(families=["mix", "names", "rename", "scen"], hard=["MISMATCH out-order", "SPEC C03-rename-not-immediately-followed-by-create"], soft=[]),
     "C04": dict(families=["alias", "mix", "delay", "scen"],
                 hard=["MISMATCH api-add", "MISMATCH api-remove", "MISMATCH list", "SPEC remove-panics", "SPEC remove-unlisted-not-nonexistent",
                       "SPEC remove-listed-nonexistent", "SPEC list-duplicate", "SPEC dangling-path-entry",
